@@ -92,7 +92,7 @@ static bool check_stop(int id)
     } else if (yv) return fail("neutral-bytes", "node %d (%s): get_bytes_bbuf non-NULL", id, kname[x->kind]);
     vf_count(CT_WRONGTYPE_GETTERS, 4);
     /* string_equals */
-    static char q[70100];
+    static char q[200200];
     if (x->kind == VK_STR) {
         size_t l = (size_t) x->pay_len;
         const uint8_t *s = D->bytes + x->pay_off;
@@ -189,7 +189,7 @@ static bool advance_field(binson_parser *p, int container, int *child)
         return false;
     }
     const vf_node *x = &D->n[*child];
-    static uint8_t probe[70100];
+    static uint8_t probe[200200];
     size_t l = (size_t) x->name_len;
     (void) container;
     if (l > 0 && l < sizeof probe) {
@@ -465,6 +465,7 @@ static void carrier_dbl(uint64_t bits)
     if ((bits & 0x7ff0000000000000ULL) == 0x7ff0000000000000ULL && (bits & 0xfffffffffffffULL)) vf_count(CT_NAN, 1);
     for (int form = 0; form < 2; form++) { carrier_begin(form); vf_b_dbits(&CD, bits); carrier_end(label); }
 }
+#define PAYMAX 200100
 static uint8_t *payload, *payload_bin;
 static void carrier_len(size_t len)
 {
@@ -496,6 +497,18 @@ static void value_families(void)
                 int64_t v = (int64_t) (sgn ? (uint64_t) 0 - u : u);
                 carrier_int(v);
             }
+    /* sparse byte patterns, far from every power of two: each of the 8 bytes either 0x00 or one of 4 non-zero fills (all 256 masks) */
+    {
+        static const uint8_t fills[] = { 0x01, 0x5a, 0x80, 0xff };
+        for (int f = 0; f < 4; f++)
+            for (int mask = 1; mask < 256; mask++) {
+                if (!take()) continue;
+                uint64_t u = 0;
+                for (int b = 0; b < 8; b++) if (mask & (1 << b)) u |= (uint64_t) fills[f] << (8 * b);
+                carrier_int((int64_t) u);
+                carrier_dbl(u);
+            }
+    }
     /* neighbourhoods of every width boundary: all values within R of +-2^k, k = 7..63 */
     int64_t R = vf_g.thorough ? 65536 : 2048;
     for (int k = 7; k < 64; k++)
@@ -552,6 +565,11 @@ static void value_families(void)
     if (!vf_g.thorough) {
         static const size_t extra[] = { 32766, 32767, 32768, 32769, 65535, 65536, 65537, 70000 };
         for (size_t i = 0; i < sizeof extra / sizeof extra[0]; i++) if (take()) carrier_len(extra[i]);
+    }
+    /* lengths far from the boundaries and beyond 16 / 17 bits */
+    {
+        static const size_t far[] = { 4608, 4863, 49152, 65792, 65794, 98304, 131071, 131072, 131073, 196608, 200000 };
+        for (size_t i = 0; i < sizeof far / sizeof far[0]; i++) if (take()) carrier_len(far[i]);
     }
 }
 
@@ -673,13 +691,13 @@ static void worker(int w, int W, uint64_t start)
 {
     g_w = w; g_W = W; g_start = start; g_index = 0;
     vf_fatal_describe = describe;
-    payload = (uint8_t *) vf_xmalloc(70100);
+    payload = (uint8_t *) vf_xmalloc(PAYMAX);
     /* string / name payload: no 0x00 anywhere (so that the C-string entry points see the whole value and the string_equals
      * probes are real prefixes / extensions); values with an embedded NUL are a leaf class of the document enumeration */
-    for (size_t i = 0; i < 70100; i++) { payload[i] = (uint8_t) (i * 131 + (i >> 8) + 1); if (!payload[i]) payload[i] = 0x7f; }
+    for (size_t i = 0; i < PAYMAX; i++) { payload[i] = (uint8_t) (i * 131 + (i >> 8) + 1); if (!payload[i]) payload[i] = 0x7f; }
     payload[6] = 0x80; payload[7] = 0xff;
-    payload_bin = (uint8_t *) vf_xmalloc(70100);
-    memcpy(payload_bin, payload, 70100);
+    payload_bin = (uint8_t *) vf_xmalloc(PAYMAX);
+    memcpy(payload_bin, payload, PAYMAX);
     payload_bin[0] = 0x00; payload_bin[5] = 0x00;
     memset(longname, 'n', sizeof longname);
     shape_families();
